@@ -4,7 +4,7 @@
    3 = the stop request on thread B with the stop callback, 4 = destruction of the operation by the
    receiver's owner once completed.  Parameters: first (how the value completion arrives: FSync in
    the start event, FInl the start event calls its own safe callback, FSafe / FUnsafe from thread
-   1, FNone never), second (thread 2 exists). *)
+   1, FNone never), second (thread 2 exists; ignored when first = FUnsafe, see has_second). *)
 From Coq Require Import List Bool Arith.
 From V Require Import Base.Sched Proto.BasicSenderDefs Proto.BasicSenderProofs.
 Import ListNotations.
